@@ -486,7 +486,7 @@ func c39ErrTestedAfterRead(c *Ctx) {
 				a := CondAtom(ifi.Cond)
 				if (a.Kind == EQ || a.Kind == NE) && len(a.L.Coef) == 1 {
 					for t := range a.L.Coef {
-						if t == Term(call.Call.Args[0])+".err" {
+						if t == Term(BaselineArgs(&call.Call)[0])+".err" {
 							good = true
 						}
 					}
@@ -711,9 +711,9 @@ func c39Refill(c *Ctx, fn *ssa.Function) {
 		c.Fail(rule, c39T+"readByte: reads into buf1[d:]", fn.Pos(), "no call of readAtLeastOneByte")
 		return
 	}
-	sl, ok := call.Call.Args[1].(*ssa.Slice)
+	sl, ok := BaselineArgs(&call.Call)[1].(*ssa.Slice)
 	c.Check(ok && sl.Low != nil && Term(sl.Low) == d, rule, c39T+"readByte: the reader fills the buffer from offset d = raw.end-raw.start", call.Pos(), "",
-		"the read would overwrite bytes of the current token or leave a gap: window is "+Term(call.Call.Args[1]))
+		"the read would overwrite bytes of the current token or leave a gap: window is "+Term(BaselineArgs(&call.Call)[1]))
 	good := false
 	HtmEach(fn, func(in ssa.Instruction) {
 		st, ok := in.(*ssa.Store)
